@@ -56,7 +56,7 @@ type Proc struct {
 
 func newProc(c *Ctx, fi *FuncInfo) *Proc {
 	return &Proc{ctx: c, fi: fi, contract: c.contracts[fi.Key],
-		heapEntry: map[string]*Term{}, maxStates: 64,
+		heapEntry: map[string]*Term{}, maxStates: 600,
 		boxed: map[*types.Var]bool{}, capturedByRef: map[*types.Var]bool{},
 		closureOf: map[types.Object]*ClosureVal{}, rangeIdx: map[int]*types.Var{},
 		visited: map[int]*types.Var{}, iters: map[int]*types.Var{}, visitedSort: map[*types.Var]Sort{},
